@@ -267,7 +267,7 @@ prop("C30",
 
 
 prop("C32",
-     units=["renamedn", "defnames"],
+     units=["renamedn", "defnames", "recorddn"],
      level="proof",
      claim="slice: renaming a defined name rewrites, in a formula tree, exactly the uses of THAT name — same scope, any letter case — to the new name and leaves every "
            "other name (other scope, other spelling) alone; every composite node (operators, function calls, comparisons, unary, implicit intersection, spill "
